@@ -299,3 +299,221 @@ pub fn rand_bounds<R: Rng>(rng: &mut R, k: usize) -> (Vec<f64>, Vec<(f64, f64)>)
     }
     (init, bounds)
 }
+
+/// adversarial scripted histories: long reject runs, alternation, all-accept, all-reject,
+/// undefined scores, random mixtures with a chosen rejection rate
+pub fn rand_script<R: Rng>(rng: &mut R) -> Script {
+    let gap = [1., 1e-3, 1e3][rng.gen_range(0, 3)];
+    match rng.gen_range(0, 8) {
+        0 => Script::Pattern { pattern: "W".into(), gap },
+        1 => Script::Pattern { pattern: "B".into(), gap },
+        2 => Script::Pattern { pattern: "BW".into(), gap },
+        3 => {
+            let n = rng.gen_range(2, 200);
+            Script::Pattern { pattern: format!("{}B", "W".repeat(n)), gap }
+        }
+        4 => {
+            let n = rng.gen_range(1, 30);
+            let letters = ['B', 'E', 'W', 'N'];
+            Script::Pattern { pattern: (0..n).map(|_| letters[rng.gen_range(0, 4)]).collect(), gap }
+        }
+        5 => Script::Pattern { pattern: "NWNB".into(), gap },
+        _ => {
+            // rejection rate (at zero temperature) 0%, 50%, 75%, 99%, 100%
+            let rej = [0., 0.5, 0.75, 0.99, 1.0][rng.gen_range(0, 5)];
+            let none = if rng.gen_bool(0.5) { rej * 0.3 } else { 0. };
+            let acc = 1. - rej;
+            Script::Random { p: [acc * 0.7, acc * 0.3, rej - none, none], seed: rng.gen(), gap }
+        }
+    }
+}
+
+pub fn rand_scripted_case<R: Rng>(rng: &mut R, kt_start: f64, max_steps: u64) -> ScriptedCase {
+    let k = match rng.gen_range(0, 4) {
+        0 => rng.gen_range(1, 4),
+        1 => rng.gen_range(12, 25),
+        _ => rng.gen_range(2, 12),
+    };
+    let (init, bounds) = rand_bounds(rng, k);
+    let mut cfg = rand_cfg(rng, kt_start, max_steps);
+    if rng.gen_bool(0.3) {
+        // bounds hit on (nearly) every move
+        cfg.max_step_size = 1.;
+    }
+    ScriptedCase { init, bounds, script: rand_script(rng), cfg, via_api: rng.gen_bool(0.3) }
+}
+
+/// With probability `p`, move one parameter's starting value outside its declared range (as
+/// for the cell of a tiny shape, or a deserialised state).  Rejections must still restore it
+/// exactly.  Not for C19: the first accepted move of such a parameter legitimately jumps.
+pub fn maybe_start_outside<R: Rng>(rng: &mut R, sc: &mut ScriptedCase, p: f64) {
+    if rng.gen_bool(p) {
+        let i = rng.gen_range(0, sc.init.len());
+        let w = sc.bounds[i].1 - sc.bounds[i].0;
+        sc.init[i] = if rng.gen_bool(0.5) { sc.bounds[i].1 + w * rng.gen_range(0.01, 2.) } else { sc.bounds[i].0 - w * rng.gen_range(0.01, 2.) };
+    }
+}
+
+pub fn rand_kt<R: Rng>(rng: &mut R) -> f64 {
+    [0., 0., 1e-6, 1e-3, 0.1, 0.5, 10., 1e6][rng.gen_range(0, 8)]
+}
+
+// ---------------------------------------------------------------------------------------
+// Probe protocol (C07, C18): the fate of each probe is read directly off the next vectors.
+
+#[derive(Default, Clone, Debug)]
+pub struct ProbeTally {
+    /// per inner loop: (accepted, resolved) and the same for the two halves of the loop
+    pub per_loop: Vec<(u64, u64)>,
+    pub first_half: Vec<(u64, u64)>,
+    pub second_half: Vec<(u64, u64)>,
+    pub flags: Vec<bool>,
+    /// mean (old - new) actually presented, per loop
+    pub d_sum: Vec<f64>,
+    pub probes_seen: u64,
+    pub dropped_ambiguous: u64,
+    pub skipped_no_single_coordinate: u64,
+    /// vector showed neither the probe's value nor the previous one after two look-aheads
+    pub anomalies: u64,
+    pub worse_accepted_at_all: u64,
+}
+
+struct Pending {
+    c: usize,
+    x: u64,
+    old: u64,
+    loop_idx: usize,
+    second_half: bool,
+    lookahead: u8,
+    d: f64,
+}
+
+pub struct ProbeSink {
+    pub tally: ProbeTally,
+    pub mon: Option<TraceMonitor>,
+    pub labels: Vec<char>,
+    inner: u64,
+    last_anchor: Option<(Vec<u64>, f64)>,
+    pending: Option<Pending>,
+}
+
+impl ProbeSink {
+    fn bump(v: &mut Vec<(u64, u64)>, i: usize, acc: bool) {
+        if v.len() <= i {
+            v.resize(i + 1, (0, 0));
+        }
+        v[i].1 += 1;
+        if acc {
+            v[i].0 += 1;
+        }
+    }
+    fn resolve(&mut self, acc: bool) {
+        if let Some(p) = self.pending.take() {
+            Self::bump(&mut self.tally.per_loop, p.loop_idx, acc);
+            if p.second_half {
+                Self::bump(&mut self.tally.second_half, p.loop_idx, acc);
+            } else {
+                Self::bump(&mut self.tally.first_half, p.loop_idx, acc);
+            }
+            if self.tally.d_sum.len() <= p.loop_idx {
+                self.tally.d_sum.resize(p.loop_idx + 1, 0.);
+            }
+            self.tally.d_sum[p.loop_idx] += p.d;
+            if self.tally.flags.len() < 4_000_000 {
+                self.tally.flags.push(acc);
+            }
+            if acc {
+                self.tally.worse_accepted_at_all += 1;
+            }
+        }
+    }
+}
+
+impl ScriptSink for ProbeSink {
+    fn on_score(&mut self, call: u64, v: &[f64], score: Option<f64>, label: char) {
+        if let Some(m) = self.mon.as_mut() {
+            m.on_call(v, score);
+            if self.labels.len() < 3_000_000 {
+                self.labels.push(label);
+            }
+        }
+        let bits: Vec<u64> = v.iter().map(|x| x.to_bits()).collect();
+        // 1. does this vector decide a pending probe?
+        if let Some(p) = self.pending.as_mut() {
+            if bits[p.c] == p.x {
+                self.resolve(true);
+            } else if bits[p.c] == p.old {
+                self.resolve(false);
+            } else {
+                p.lookahead += 1;
+                if p.lookahead >= 2 {
+                    // overwritten twice in a row (probability 1/k^2, independent of the
+                    // acceptance draw) - or neither value present
+                    if label == 'A' || label == 'S' || label == 'P' {
+                        self.tally.dropped_ambiguous += 1;
+                    } else {
+                        self.tally.anomalies += 1;
+                    }
+                    self.pending = None;
+                }
+            }
+        }
+        // 2. book-keeping for this call
+        match label {
+            'A' => {
+                if let Some(s) = score {
+                    self.last_anchor = Some((bits, s));
+                }
+            }
+            'P' => {
+                self.tally.probes_seen += 1;
+                if let (Some((av, ascore)), Some(s)) = (self.last_anchor.as_ref(), score) {
+                    let diff: Vec<usize> = (0..bits.len()).filter(|i| av[*i] != bits[*i]).collect();
+                    if diff.len() == 1 && self.pending.is_none() {
+                        let prop = call.saturating_sub(1);
+                        let inner = self.inner.max(1);
+                        let l = (prop / inner) as usize;
+                        let second = (prop % inner) * 2 >= inner;
+                        self.pending = Some(Pending { c: diff[0], x: bits[diff[0]], old: av[diff[0]], loop_idx: l, second_half: second, lookahead: 0, d: ascore - s });
+                    } else {
+                        self.tally.skipped_no_single_coordinate += 1;
+                    }
+                }
+            }
+            _ => {}
+        }
+    }
+}
+
+pub struct ProbeReport {
+    pub tally: ProbeTally,
+    pub monitor: Option<TraceMonitor>,
+    pub labels: Vec<char>,
+    pub panicked: Option<String>,
+}
+
+pub fn run_probe(c: &ScriptedCase, with_monitor: bool) -> ProbeReport {
+    let k = c.init.len();
+    let inner = match &c.script {
+        Script::Probe { inner, .. } => *inner,
+        _ => c.cfg.effective_inner(),
+    };
+    let sink = Arc::new(Mutex::new(ProbeSink { tally: ProbeTally::default(), mon: if with_monitor { Some(TraceMonitor::new(k)) } else { None }, labels: vec![], inner, last_anchor: None, pending: None }));
+    let dynsink: Arc<Mutex<dyn ScriptSink>> = sink.clone();
+    let state = Scripted::new(&c.init, &c.bounds, c.script.clone(), dynsink);
+    let builder = if c.via_api { Ok(c.cfg.builder_api()) } else { c.cfg.builder() };
+    let res = match builder {
+        Err(e) => Err(format!("configuration rejected by the argument parser: {}", e)),
+        Ok(b) => catch_unwind(AssertUnwindSafe(|| {
+            let out = b.build().optimise_state(state);
+            params_of(&out)
+        }))
+        .map_err(panic_message),
+    };
+    let mut g = sink.lock().unwrap();
+    let tally = std::mem::take(&mut g.tally);
+    let monitor = g.mon.take();
+    let labels = std::mem::take(&mut g.labels);
+    drop(g);
+    ProbeReport { tally, monitor, labels, panicked: res.err() }
+}
